@@ -500,7 +500,7 @@ func (g *c06Gen) itemSel(name string, slots int, subSlots int) string {
 			out += " ... on Item { b }"
 			g.used["Item.b"] = true
 		case 9:
-			out += " x: sub " + g.subSel(p+".sub", subSlots)
+			out += " y: sub " + g.subSel(p+".sub", subSlots)
 			g.used["Item.sub"] = true
 		}
 	}
